@@ -100,6 +100,8 @@ def client_requests(rng, ci, ident, version, shared, hist):
     tag = 'h%d-c%d' % (hist, ci)
     for j in range(n):
         k = rng.randrange(17)
+        if rng.random() < 0.2:
+            k = 2           # placeholder batches are the requests with the most transient state: make them frequent
         sh = rng.choice(shared)
         name = '%s-%d' % (tag, j)
         if k == 0:
@@ -108,7 +110,9 @@ def client_requests(rng, ci, ident, version, shared, hist):
             ops = [op_register('sym', secret_sym(bytes([ci, j]) * 8), sym_attrs(length=128, masks=ALL_MASKS, names=[name],
                                                                                policy='open' if version < (2, 0) else None))]
         elif k == 2:
-            ops = [op_create(names=[name]), op_get(None), op_activate(None), op_get_attributes(None)]
+            # identifier-less items behind a creating item (Activate/Destroy cannot be encoded without an identifier)
+            ops = [op_create(names=[name])] + [rng.choice((op_get(None), op_get_attributes(None), op_get_attribute_list(None)))
+                                                   for _ in range(rng.randrange(2, 9))]
         elif k == 3:
             ops = [op_get(sh)]
         elif k == 4:
@@ -136,7 +140,8 @@ def client_requests(rng, ci, ident, version, shared, hist):
         elif k == 16:
             ops = [op_query(), op_get_attributes(sh)]
         else:
-            ops = [op_register('secret', secret_data(b'pw-%d-%d' % (ci, j)), common_attrs(names=[name])), op_get(None)]
+            ops = [op_register('secret', secret_data(b'pw-%d-%d' % (ci, j)), common_attrs(names=[name])), op_get(None),
+                   op_get_attributes(None), op_get(None)]
         try:
             data = rig.encode_request(rig.build_request(version, ops), version)
             rig.decode_request(data)
@@ -214,7 +219,7 @@ def run_case(ctx, case):
             # a further connection whose certificate lacks clientAuth: every request of it is refused by the session
             refused_client = len(clients)
             clients = clients + [(('mallory', None), (1, 2))]
-            frames.append([rig.encode_request(rig.build_request((1, 2), [op_locate()]), (1, 2)) for _ in range(rng.randrange(2, 6))])
+            frames.append([rig.encode_request(rig.build_request((1, 2), [op_locate()]), (1, 2)) for _ in range(rng.randrange(8, 40))])
             nclients += 1
         work = d + '/work.sqlite'
         shutil.copyfile(base, work)
